@@ -1015,6 +1015,12 @@ def greedy_run(ctx: Ctx, cls, f):
     op = next((x for x in names if "many" in x.lower()), None)
     pairs = [(1, 1), (1, 2), (2, 1), (2, 2)]  # (reference label, prediction label)
     runs = 0
+    # a matcher whose candidate generator already applies the matcher's own threshold (established by running
+    # the generator, candidate_prefilter) receives passing candidates only: the scenario's candidates all pass
+    try:
+        prefiltered = candidate_prefilter(ctx, f)[0] is not None
+    except (Undecided, AnchorMissing):
+        prefiltered = False
 
     for m2o in ((False, True) if op else (None,)):
         mv, me = make_metric_objs(prog, False)
@@ -1062,12 +1068,12 @@ def greedy_run(ctx: Ctx, cls, f):
                 want = {}
                 for i in order:
                     r, p_ = pairs[i]
-                    if i not in beats:
+                    if i not in beats and not prefiltered:
                         continue  # not tested on this path: only possible for a candidate that could not be taken anyway
-                    if beats[i] and p_ not in want and (m2o or r not in want.values()):
+                    if beats.get(i, True) and p_ not in want and (m2o or r not in want.values()):
                         want[p_] = r
                 # a candidate whose test was skipped must indeed have been blocked
-                blocked_ok = all(pairs[i][1] in want or (not m2o and pairs[i][0] in want.values()) for i in order if i not in beats)
+                blocked_ok = prefiltered or all(pairs[i][1] in want or (not m2o and pairs[i][0] in want.values()) for i in order if i not in beats)
                 if out.kind != "return" or not isinstance(out.value, Obj):
                     return False, {"outcome": f"{out.kind} {out.exc or ''}".strip(), **scen}, runs
                 got = out.value.attrs.get(api["dict_attr"])
